@@ -190,6 +190,7 @@ func hCall(ctx erpc.CallCtx, arg *[]byte) ([]byte, *erpc.Status) {
 type parkState struct {
 	arrived chan struct{}
 	release chan struct{}
+	cmd     chan func(erpc.CtxSession) // optional: work the parked handler does on its own session while it is held
 	once    sync.Once
 }
 
@@ -204,7 +205,14 @@ func hPark(ctx erpc.CallCtx, arg *[]byte) ([]byte, *erpc.Status) {
 		case ps.arrived <- struct{}{}:
 		default:
 		}
-		<-ps.release
+		for held := true; held; {
+			select {
+			case f := <-ps.cmd:
+				f(ctx.Session())
+			case <-ps.release:
+				held = false
+			}
+		}
 	}
 	return []byte("parked-ok"), nil
 }
@@ -1880,6 +1888,20 @@ func scriptList(path string, full bool) []scriptDesc {
 			out = append(out, scriptDesc{Script: "close-with-pending-call.then-" + f, Kind: "close-pending", Flavour: f, Side: side})
 		}
 	}
+	// a new push / call issued on a session whose Close() is still waiting (for a handler that runs on it, or for the
+	// reply to a call it issued) - from another goroutine, or by the running handler itself: it fails fast with a
+	// connection-closed status, and the close completes once the handler has returned; in every tier
+	for _, side := range []string{"S", "C"} {
+		for _, reason := range []string{"handler-running", "call-pending"} {
+			ops := []string{"push", "call"}
+			if reason == "handler-running" {
+				ops = append(ops, "handler-push", "handler-call")
+			}
+			for _, f := range ops {
+				out = append(out, scriptDesc{Script: "op-while-close-waits." + reason + "." + f, Kind: "op-while-closing", Order: reason, Frame: f, Side: side})
+			}
+		}
+	}
 	// Peer.Close() while sessions are still inside an accept / dial hook that has already named them with SetID (so
 	// they are in the index), released after Peer.Close returned or while it still waits for an established session;
 	// an unnamed parked hook as observation; and Peer.Close() while a session's own Close() is parked. Side = the
@@ -1900,7 +1922,7 @@ func scriptList(path string, full bool) []scriptDesc {
 		// other over (a history op of its own); scripts with more than one connection dial, so that ids are unique
 		for i := range out {
 			out[i].Via = []string{"dial", "serveconn"}[i%2]
-			if out[i].Kind == "setid-mid" || out[i].Kind == "hub-mid" || ((out[i].Kind == "close-pending" || strings.HasPrefix(out[i].Kind, "peer-close-")) && out[i].Side == "C") {
+			if out[i].Kind == "setid-mid" || out[i].Kind == "hub-mid" || ((out[i].Kind == "close-pending" || out[i].Kind == "op-while-closing" || strings.HasPrefix(out[i].Kind, "peer-close-")) && out[i].Side == "C") {
 				out[i].Via = "dial"
 			}
 		}
@@ -1909,7 +1931,7 @@ func scriptList(path string, full bool) []scriptDesc {
 		n := len(out)
 		for i := 0; i < n; i++ {
 			switch out[i].Kind {
-			case "accept-insert", "hook-accept", "hook-far", "close-pending", "peer-close-hook", "peer-close-close-parked":
+			case "accept-insert", "hook-accept", "hook-far", "close-pending", "op-while-closing", "peer-close-hook", "peer-close-close-parked":
 				continue
 			}
 			c := out[i]
@@ -2329,6 +2351,118 @@ func runScript(w *world, sd scriptDesc) (vs []viol, inconcl string) {
 		ps.free()
 		parkCtl.Store((*parkState)(nil))
 		w.mark(o, "the far end of its connection called Close() / its connection ended")
+	case "op-while-closing":
+		l := newLink()
+		if l == nil {
+			return
+		}
+		x, o := pick(l)
+		ps := &parkState{arrived: make(chan struct{}, 4), release: make(chan struct{}), cmd: make(chan func(erpc.CtxSession))}
+		parkCtl.Store(ps)
+		defer parkCtl.Store((*parkState)(nil))
+		caller := x // call-pending: x waits for the reply to its own call
+		if sd.Order == "handler-running" {
+			caller = o // the far end's call is being handled on x
+		}
+		var cst *erpc.Status
+		cch := run(func() {
+			var res []byte
+			cst = caller.sess.Call(w.parkRoute, []byte("held"), &res).Status()
+		})
+		select {
+		case <-ps.arrived:
+		case <-time.After(trapWait):
+			return nil, infeasible("the parked handler was not reached")
+		}
+		cl := w.goClose(x)
+		if !w.quiesce() {
+			ps.free()
+			return nil, "watchdog"
+		}
+		select {
+		case <-cl:
+			ps.free()
+			return nil, infeasible("Close() returned although a handler / an outgoing call of the session was still in progress")
+		default:
+		}
+		if st := erpc.VerifStatus(x.sess); st != 2 {
+			ps.free()
+			return nil, infeasible("Close() is not waiting in activeClosing (status " + stName(st) + ")")
+		}
+		// the new operation on the closing session
+		var ost *erpc.Status
+		var och chan struct{}
+		switch sd.Frame {
+		case "push":
+			och = run(func() { ost = x.sess.Push(w.pushRoute, []byte("late")) })
+		case "call":
+			och = run(func() {
+				var res []byte
+				ost = x.sess.Call(w.callRoute, []byte("late"), &res).Status()
+			})
+		case "handler-push", "handler-call":
+			och = make(chan struct{})
+			f := func(cs erpc.CtxSession) {
+				defer close(och)
+				if sd.Frame == "handler-push" {
+					ost = cs.Push(w.pushRoute, []byte("late-from-handler"))
+				} else {
+					var res []byte
+					ost = cs.Call(w.callRoute, []byte("late-from-handler"), &res).Status()
+				}
+			}
+			select {
+			case ps.cmd <- f:
+			case <-time.After(trapWait):
+				ps.free()
+				return nil, infeasible("the parked handler did not take the command")
+			}
+		}
+		q := quiesce.Wait(w.qopt())
+		core.Add("quiescent_points", 1)
+		if !q.Quiescent {
+			ps.free()
+			return nil, "watchdog"
+		}
+		var set vset
+		select {
+		case <-och:
+			core.Add("operations_issued_while_close_waited", 1)
+			if ost.Code() != erpc.CodeConnClosed {
+				set.add("new-op-not-connection-closed", fmt.Sprintf("%s: a %s issued while its Close() was waiting (%s) returned %s instead of a connection-closed status", x.name(), sd.Frame, sd.Order, statStr(ost)))
+			}
+		default:
+			blocked := quiesce.Brief(quiesce.Blocked(q.Dump, "github.com/henrylee2cn/erpc/v6.(*session)."))
+			if len(blocked) > 3 {
+				blocked = blocked[:3]
+			}
+			set.add("new-op-blocked-while-close-waits", fmt.Sprintf("%s: a %s issued while its Close() was waiting (%s) has not returned at quiescence - it does not fail fast; blocked: %v", x.name(), sd.Frame, sd.Order, blocked))
+		}
+		select {
+		case <-cl:
+			set.add("close-returned-early", fmt.Sprintf("%s: Close() returned while the handler / outgoing call it waits for was still in progress (after a new %s was issued)", x.name(), sd.Frame))
+		default:
+		}
+		if len(set.vs) > 0 {
+			ps.free()
+			w.await(cl)
+			return set.vs, ""
+		}
+		// the handler returns: the close completes
+		ps.free()
+		if done, wd := w.await(cl); !done {
+			if wd {
+				return nil, "watchdog"
+			}
+			blocked := quiesce.Brief(quiesce.Blocked(quiesce.Wait(w.qopt()).Dump, "github.com/henrylee2cn/erpc/v6.(*session)."))
+			set.add("close-not-returned", fmt.Sprintf("%s: the handler it waited for has returned and Close() has still not returned at quiescence (a new %s had been issued meanwhile); blocked: %v", x.name(), sd.Frame, blocked))
+			return set.vs, ""
+		}
+		if done, _ := w.await(cch); done && sd.Order == "handler-running" && !cst.OK() {
+			core.Add("held_calls_not_answered_ok", 1) // C08's business
+		}
+		w.mark(x, "its Close() was called")
+		w.mark(o, "the far end of its connection called Close()")
 	case "frame-vs-close":
 		l := newLink()
 		if l == nil {
